@@ -202,6 +202,16 @@ def run(ctx, case):
         G2, A2 = acc.gassner_cycles(coll), acc.lifetime_multiple(coll)
         ctx.claim(ctx.close([G2, A2], [G, A], 1e-9), "gassner_" + rule, ("second call differs", G2, A2))
         ctx.claim(ctx.eq([curve["SD"], curve["ND"]], [SD, ND]), "gassner_" + rule, "curve modified by the call")
+        if m >= 2:
+            # ... and of the collective's *current* content: the caller's frame edited in place (first class doubled), the same
+            # collective and Miner objects asked again == fresh objects on the same data
+            n2 = [2 * n[0]] + list(n[1:])
+            coll._obj["cycles"] = _col(ctx, n2)
+            G3 = acc.gassner_cycles(coll)
+            curve_f = _curve(ctx, k, k2, SD, ND, case.get("scatter"))
+            acc_f = curve_f.gassner_miner_elementary if rule == "elementary" else curve_f.gassner_miner_haibach
+            G3f = acc_f.gassner_cycles(_collective(ctx, S, n2))
+            ctx.claim(ctx.close(G3, G3f, 1e-9), "gassner_" + rule, ("stale result after the collective changed", G3, G3f))
         return {"G": G, "A": A, "D": D}
 
     if kind == "eff":
